@@ -43,7 +43,7 @@ class Check(PropertyCheck):
                 yield slices.stale_ready_scenario(rng)
                 continue
             # every other scenario continues with a second episode after reset(): the clauses hold there as well
-            yield slices.dispatch_scenario(rng, observers=True, with_invalid=True, max_jobs=4 if tier == "quick" else 5,
+            yield slices.dispatch_scenario(rng, observers=True, peeks=True, with_invalid=True, max_jobs=4 if tier == "quick" else 5,
                                            max_ops=4 if tier == "quick" else 6, replay=rng.random() < 0.5,
                                            queries=rng.random() < 0.5)   # users look at the dispatcher between dispatches
 
